@@ -97,15 +97,16 @@ func c16MakeConc(seed int64) *c16Conc {
 	c := &c16Conc{seed: seed, w: c16W}
 	namePools := [][]string{{"a", "b", "c"}, {"env", "job", "zone"}, {"A", "B_", "b"}, {"a1", "a2", "a3"}}
 	np := namePools[int(seed)%len(namePools)]
-	c.names = map[string]string{"a": np[0], "b": np[1], "c": np[2], "__name__": "__name__"}
+	c.names = map[string]string{"a": np[0], "b": np[1], "c": np[2], "__name__": "__name__", "": ""}
 	type vp struct {
 		x, y, z string
 		f       []string // filler prefixes, spread over the sort order
 	}
+	// fillers sort below, between and above x y z but never start with, end with or contain them
 	valPools := []vp{
-		{"x", "y", "z", []string{"f", "xa", "yb"}},
+		{"k", "p", "t", []string{"f", "m", "r", "w"}},
 		{"prod", "qa", "stage", []string{"k", "pz", "r", "zz"}},
-		{"é1", "ñ2", "ü3", []string{"ß", "a"}},
+		{"é1", "ñ2", "ü3", []string{"ß", "a", "ö"}},
 		{"10", "2", "30", []string{"0", "15", "4"}},
 	}
 	p := valPools[int(seed/2)%len(valPools)]
@@ -116,8 +117,7 @@ func c16MakeConc(seed int64) *c16Conc {
 	}
 	for i := 0; i < k; i++ {
 		pre := p.f[i%len(p.f)]
-		// fillers must not start with, end with or contain x / y / z
-		c.fillers = append(c.fillers, fmt.Sprintf("%s_%02d_", pre, i))
+		c.fillers = append(c.fillers, fmt.Sprintf("%s_%c%c_", pre, 'A'+i/26, 'A'+i%26))
 	}
 	c.t0 = []int64{0, 5000, 1 << 40, 7}[r.Intn(4)]
 	c.o1 = []int64{0, 1, 137}[r.Intn(3)]
@@ -322,8 +322,9 @@ func c16Open(conc *c16Conc, sharding bool) (*c16World, error) {
 		return nil, err
 	}
 	opts := tsdb.DefaultOptions()
-	opts.MinBlockDuration = c16W
-	opts.MaxBlockDuration = c16W
+	// the head accepts samples down to maxTime - MinBlockDuration/2: keep the whole container appendable
+	opts.MinBlockDuration = 10 * c16W
+	opts.MaxBlockDuration = 10 * c16W
 	opts.WALSegmentSize = -1 // no WAL: the property is about the index and the queriers
 	opts.EnableSharding = sharding
 	db, err := tsdb.Open(dir, nil, nil, opts, nil)
@@ -527,7 +528,7 @@ func (w *c16World) query(q c16Step, qi int, st *c16Stats) *c16Fail {
 		}
 		fail := func() *c16Fail {
 			// ---- Select
-			if len(q.Ms) > 0 {
+			{
 				ms, err := w.conc.matchers(q.Ms)
 				if err != nil {
 					return &c16Fail{"infra", err.Error()}
@@ -641,11 +642,28 @@ func (w *c16World) query(q c16Step, qi int, st *c16Stats) *c16Fail {
 		qr.Close()
 		if fail != nil {
 			fail.msg = fmt.Sprintf("range points [%d,%d] = [%d,%d]: %s", r[0], r[1], mint, maxt, fail.msg)
+			if fail.sig != "infra" {
+				fail.sig += c16KnownShape(q.Ms)
+			}
 			return fail
 		}
 	}
 	return nil
 }
+
+// c16KnownShape gives the two matcher-list shapes of known_findings.json (KF-C16-1, KF-C16-2; the
+// predicates KF_C16_1 / KF_C16_2 of Postings.tla) their own signature suffix.
+func c16KnownShape(ms []c16M) string {
+	if len(ms) == 0 {
+		return "/nomatchers"
+	}
+	if len(ms) == 1 && ms[0].N == "" && ms[0].V == "" && (ms[0].T == "!=" || ms[0].T == "!~") {
+		return "/emptyname-not"
+	}
+	return ""
+}
+
+var c16KnownOnce sync.Map // signature with a known shape -> reported once per run
 
 func c16MsString(c *c16Conc, ms []c16M) string {
 	var sb strings.Builder
@@ -666,14 +684,19 @@ func c16MsString(c *c16Conc, ms []c16M) string {
 }
 
 // c16RunGroup replays one behaviour group on a fresh DB. Returns the number of query steps run.
-func c16RunGroup(g c16Group, gi int, seed int64, st *c16Stats, par int) (fatal error) {
+func c16RunGroup(g c16Group, gi int, seed int64, st *c16Stats, par int, sharding bool) (fatal error) {
 	conc := c16MakeConc(seed)
-	w, err := c16Open(conc, false)
+	w, err := c16Open(conc, sharding)
 	if err != nil {
 		return err
 	}
 	defer w.close()
 	report := func(f *c16Fail, q c16Step, stepNo int) {
+		if c16KnownShape(q.Ms) != "" {
+			if _, dup := c16KnownOnce.LoadOrStore(f.sig, true); dup {
+				return
+			}
+		}
 		verifh.Violation(f.sig, fmt.Sprintf("group %d step %d %s: %s", gi, stepNo, c16MsString(conc, q.Ms), f.msg),
 			map[string]any{"steps": g.Steps, "query": q, "seed": seed, "names": conc.names, "vals": conc.vals, "nfillers": len(conc.fillers)})
 	}
@@ -700,7 +723,9 @@ func c16RunGroup(g c16Group, gi int, seed int64, st *c16Stats, par int) (fatal e
 					return fmt.Errorf("group %d step %d: %s", gi, i, f.msg)
 				}
 				report(f, s, i)
-				return nil
+				if c16KnownShape(s.Ms) == "" {
+					return nil
+				}
 			}
 		case "Shard":
 			if f := w.shardQuery(s, qi, st); f != nil {
@@ -744,6 +769,8 @@ func c16RunGroup(g c16Group, gi int, seed int64, st *c16Stats, par int) (fatal e
 					if firstErr == nil {
 						firstErr = fmt.Errorf("group %d query %d: %s", gi, i, f.msg)
 					}
+				} else if c16KnownShape(q.Ms) != "" {
+					report(f, q, len(g.Steps)+i)
 				} else if reported < 3 {
 					reported++
 					report(f, q, len(g.Steps)+i)
@@ -797,7 +824,7 @@ func c16Run(t *testing.T, sharding bool) {
 			continue
 		}
 		for k := 0; k < nconc; k++ {
-			if err := c16RunGroup(g, gi, seed+int64((gi+k)%4), st, par); err != nil {
+			if err := c16RunGroup(g, gi, seed+int64((gi+k)%4), st, par, sharding); err != nil {
 				verifh.Infra(err.Error())
 				t.Fatal(err)
 			}
@@ -816,7 +843,7 @@ func c16Run(t *testing.T, sharding bool) {
 		go func() {
 			defer wg.Done()
 			for gi := range ch {
-				if err := c16RunGroup(groups[gi], gi, seed+int64(gi%4), st, 1); err != nil {
+				if err := c16RunGroup(groups[gi], gi, seed+int64(gi%4), st, 1, sharding); err != nil {
 					mu.Lock()
 					if firstErr == nil {
 						firstErr = err
@@ -840,3 +867,12 @@ func c16Run(t *testing.T, sharding bool) {
 }
 
 func TestVerifC16Replay(t *testing.T) { c16Run(t, false) }
+
+// shardQuery (C18): Select with SelectHints.ShardIndex/ShardCount for every shard of the count n.
+// The spec predicts the algebra only (the shards are pairwise disjoint, their union is the
+// unsharded answer, membership is decided by a function H of the label set alone); H itself is
+// uninterpreted, so the observed shard of every series is recorded and validated afterwards
+// against Trace_Shard.tla together with labels.StableHash of the three build variants.
+func (w *c16World) shardQuery(q c16Step, qi int, st *c16Stats) *c16Fail {
+	return &c16Fail{"infra", "Shard steps are replayed by the C18 check only"}
+}
